@@ -126,7 +126,7 @@ def run(tier, seed):
             vals = [x for x in (r["nw"] if r["mode"] == "node" else r["ew"]) if x != vlib.NONE]
             maxf = max(vals) if vals else 0
             k = r["k"] if r["k"] != vlib.NONE else r["k_model"]
-            for j, (cap, caps) in enumerate(((-1, []), (k * maxf, []), (-1, r.get("repcaps_obs") or []))):
+            for j, (cap, caps) in enumerate(((-1, []), (k * F.code_maxf(r), []), (-1, r.get("repcaps_obs") or []))):
                 if j == 2 and not caps:
                     continue
                 a = dict(r)
@@ -184,7 +184,7 @@ def replay(path, seed):
             vals = [x for x in (r["nw"] if r["mode"] == "node" else r["ew"]) if x != vlib.NONE]
             maxf = max(vals) if vals else 0
             k = r["k"] if r["k"] != vlib.NONE else r["k_model"]
-            for j, (cap, caps) in enumerate(((-1, []), (k * maxf, []), (-1, r.get("repcaps_obs") or []))):
+            for j, (cap, caps) in enumerate(((-1, []), (k * F.code_maxf(r), []), (-1, r.get("repcaps_obs") or []))):
                 if j == 2 and not caps:
                     continue
                 a = dict(r)
